@@ -144,6 +144,11 @@ def _prep_loss(loss: pd.DataFrame, phases: dict = {}) -> pd.DataFrame:
     return df
 
 
+def _q(name: str):
+    """Quote a component name for use as Graphviz node ID"""
+    return '"{}"'.format(name.replace('"', '\\"'))
+
+
 def _nice_float(f):
     """Format floats with SI prefixes"""
     pwr = int("{:e}".format(f).split("e")[1])
@@ -200,7 +205,7 @@ def _diag(
             conf["label"] = "{}\n{}W".format(
                 name, _nice_float(ldf[ldf.Component == name]["Loss (W)"].to_list()[0])
             )
-        gr.add_node(pydot.Node(name, **conf))
+        gr.add_node(pydot.Node(_q(name), **conf))
 
     # heat diagram operations
     ldf = None
@@ -241,7 +246,7 @@ def _diag(
     p = dict(zip(sys._g.attrs["nodes"].values(), sys._g.attrs["nodes"].keys()))
     for e in iter(sys._g.edge_indices()):
         ep = sys._g.get_edge_endpoints_by_index(e)
-        graph.add_edge(pydot.Edge(p[ep[0]], p[ep[1]], **bd_conf["edge"]))
+        graph.add_edge(pydot.Edge(_q(p[ep[0]]), _q(p[ep[1]]), **bd_conf["edge"]))
     # output image
     if fname == None:
         img = Image.open(io.BytesIO(graph.create_png(prog="dot")))
